@@ -65,6 +65,14 @@ pub fn guarded_sub(a: u64, b: u64) -> u64 {
         0
     }
 }
+#[derive(Clone, Copy, PartialEq, PartialOrd)]
+pub struct Offset<T> {
+    val: u64,
+    _p: std::marker::PhantomData<T>,
+}
+pub fn orders_offsets(a: Offset<u8>, b: Offset<u8>) -> bool {
+    a < b
+}
 pub fn fresh_error(x: u32) -> std::io::Result<u32> {
     if x == 0 {
         return Err(std::io::Error::new(std::io::ErrorKind::InvalidData, "zero is on the free list"));
